@@ -1,41 +1,50 @@
 --------------------------- MODULE Trace_LspServer ---------------------------
 (* Trace validation for C09.  One session on the real Backend:                     *)
-(*   Reset | Recv{seq, kind, url, text} | Sched{order} | Pub{url, text, handler}     *)
+(*   Reset | Recv{seq, kind, url, text, cfg} | Sched{order} | Pub{url, ids[], handler}  *)
 (*   | Quiescent{overlap} | Stuck{kind}                                               *)
-(* text is the identity of a text (each pool text has its own misspelling, so the     *)
-(* published diagnostics identify the text they were computed from).  The spec keeps   *)
+(* text is the identity of a text, cfg of a configuration.  ids lists the (text,       *)
+(* configuration) pairs [t, c] for which a FRESH server publishes exactly these          *)
+(* diagnostics (t = "none": empty diagnostics): each pool text has its own misspelling   *)
+(* and each configuration leaves its own mark, so a publish identifies what it was       *)
+(* computed from.  The spec keeps   *)
 (* LspServer's client-side variables (clientText, open) and `published`; at every      *)
 (* quiescent point the last publish for each url must be its newest text, or empty     *)
 (* diagnostics once it is closed or deleted.                                           *)
 EXTENDS Naturals, Integers, Sequences, FiniteSets, Json, IOUtils, TLC
 
 Rec == ndJsonDeserialize(IOEnv.TRACE)
-VARIABLES l, clientText, published, tainted
+VARIABLES l, clientText, clientCfg, published, tainted
 
 Urls == {0, 1, 2}
 \* tainted: urls left stale by an overlapping batch (already reported); cleared when the client
 \* sends a new text for the url
-TraceInit == l = 1 /\ clientText = [u \in Urls |-> "none"] /\ published = [u \in Urls |-> "empty"] /\ tainted = {}
+Nothing == {[t |-> "none", c |-> ""]}
+Elems(s) == {s[i] : i \in DOMAIN s}
+\* is the last publish what a fresh server would say about the client's text under the client's configuration?
+UpToDate(u) == IF clientText[u] = "none" THEN \E x \in published[u] : x.t = "none"
+               ELSE \E x \in published[u] : x.t = clientText[u] /\ x.c = clientCfg
+TraceInit == l = 1 /\ clientText = [u \in Urls |-> "none"] /\ clientCfg = "c0" /\ published = [u \in Urls |-> Nothing] /\ tainted = {}
 Step(e) ==
-  CASE e.ev = "Reset" -> clientText' = [u \in Urls |-> "none"] /\ published' = [u \in Urls |-> "empty"] /\ tainted' = {}
+  CASE e.ev = "Reset" -> clientText' = [u \in Urls |-> "none"] /\ clientCfg' = "c0" /\ published' = [u \in Urls |-> Nothing] /\ tainted' = {}
     [] e.ev = "Recv" ->
          /\ clientText' = CASE e.kind \in {"open", "change"} -> [clientText EXCEPT ![e.url] = e.text]
                             [] e.kind \in {"close", "delete"} -> [clientText EXCEPT ![e.url] = "none"]
                             [] OTHER -> clientText
+         /\ clientCfg' = IF e.kind = "config" THEN e.cfg ELSE clientCfg
          /\ tainted' = IF e.kind \in {"open", "change", "close", "delete"} THEN tainted \ {e.url} ELSE tainted
          /\ UNCHANGED published
-    [] e.ev = "Sched" -> UNCHANGED <<clientText, published, tainted>>
-    [] e.ev = "Pub" -> /\ published' = IF e.url \in Urls THEN [published EXCEPT ![e.url] = e.text] ELSE published
-                       /\ UNCHANGED <<clientText, tainted>>
+    [] e.ev = "Sched" -> UNCHANGED <<clientText, clientCfg, published, tainted>>
+    [] e.ev = "Pub" -> /\ published' = IF e.url \in Urls THEN [published EXCEPT ![e.url] = Elems(e.ids)] ELSE published
+                       /\ UNCHANGED <<clientText, clientCfg, tainted>>
     [] e.ev = "Quiescent" ->
-         /\ UNCHANGED <<clientText, published>>
-         /\ LET bad == {u \in Urls : published[u] # (IF clientText[u] = "none" THEN "empty" ELSE clientText[u])} \ tainted IN
+         /\ UNCHANGED <<clientText, clientCfg, published>>
+         /\ LET bad == {u \in Urls : ~UpToDate(u)} \ tainted IN
             /\ tainted' = IF e.overlap THEN tainted \cup bad ELSE tainted
             /\ IF bad = {} THEN TRUE
                ELSE IF e.overlap THEN PrintT(<<"REJECT", l, "stale-last-word-after-overlapping-handlers", CHOOSE u \in bad : TRUE>>)
                ELSE PrintT(<<"REJECT", l, "stale-last-word-after-sequential-handling", CHOOSE u \in bad : TRUE>>)
-    [] e.ev = "Stuck" -> UNCHANGED <<clientText, published, tainted>> /\ PrintT(<<"REJECT", l, "handler-never-finished", 0>>)
-    [] OTHER -> UNCHANGED <<clientText, published, tainted>> /\ PrintT(<<"REJECT", l, "unknown-event", 0>>)
+    [] e.ev = "Stuck" -> UNCHANGED <<clientText, clientCfg, published, tainted>> /\ PrintT(<<"REJECT", l, "handler-never-finished", 0>>)
+    [] OTHER -> UNCHANGED <<clientText, clientCfg, published, tainted>> /\ PrintT(<<"REJECT", l, "unknown-event", 0>>)
 
 TraceNext == l <= Len(Rec) /\ Step(Rec[l]) /\ l' = l + 1
 Consumed == PrintT(<<"CONSUMED", TLCGet("stats").diameter - 1>>)
